@@ -29,7 +29,7 @@ def dy(rng, lo, hi, den=8):
 NOMS = [1.0, 1.0, 10.0, 100.0, 0.125, 0.01, 2.5, 1000.0]
 
 
-def gen_spec(rng, idx, nonlinear=None, exact_init=False, big=False):
+def gen_spec(rng, idx, nonlinear=None, exact_init=False, big=False, with_extras=False):
     """one random model.  exact_init: every state gets a fixed start or an initial equation
     (initial state uniquely determined; needed for the optimisation cross-check)."""
     if nonlinear is None:
@@ -163,15 +163,35 @@ def gen_spec(rng, idx, nonlinear=None, exact_init=False, big=False):
     outputs = [v for v in base + anames if rng.random() < 0.6]
     if not outputs:
         outputs = [base[0]]
+    # user-defined extra variables with their defining equations (SimulationProblem.extra_variables /
+    # extra_equations, written in Python, not in the .mo file)
+    extras = []
+    if with_extras:
+        for q in range(rng.randint(1, 2)):
+            ne = rng.choice(NOMS)
+            terms = [(1.0, ["e%d" % (q + 1)])]
+            for o in rng.sample(base + anames, min(len(base + anames), rng.randint(1, 2))):
+                v, sg = alias_or(o) if o in base else (o, 1.0)
+                terms.append((sg * dy(rng, -1, 1) * ne / nomof.get(o, 1.0), [v]))
+            if rng.random() < 0.5:
+                terms.append((dy(rng, -2, 2) * ne, [rng.choice(inputs)]))
+            if extras and rng.random() < 0.5:
+                terms.append((dy(rng, -0.5, 0.5) * ne / extras[-1]["nom"], [extras[-1]["n"]]))
+            if nonlinear and rng.random() < 0.5:
+                o = rng.choice(snames)
+                terms.append((dy(rng, -0.5, 0.5) * ne / nomof[o] ** 2, [o, o]))
+            if rng.random() < 0.3:
+                terms.append((dy(rng, -1, 1) * ne, ["@sin" if nonlinear else "@t"]))
+            extras.append(dict(n="e%d" % (q + 1), nom=ne, terms=terms))
     return dict(name="G%d" % idx, states=states, algs=algs, inputs=inputs, params=params, aliases=aliases,
-                eqs=eqs, init_eqs=init_eqs, outputs=outputs, nonlinear=bool(nonlinear))
+                eqs=eqs, init_eqs=init_eqs, outputs=outputs, nonlinear=bool(nonlinear), extras=extras)
 
 
 def is_affine(spec):
     """every term has at most one unknown factor (state/algebraic/alias/der); inputs, parameters
     and the time functions count as known"""
     known = set(spec["inputs"]) | {p["n"] for p in spec["params"]} | {"@t", "@sin"}
-    for eq in spec["eqs"] + spec["init_eqs"]:
+    for eq in spec["eqs"] + spec["init_eqs"] + spec.get("extras", []):
         for _c, fs in eq["terms"]:
             if sum(1 for f in fs if f not in known) > 1:
                 return False
@@ -254,6 +274,7 @@ def all_names(spec):
     names = [s["n"] for s in spec["states"]] + [a["n"] for a in spec["algs"]]
     names += ["der(%s)" % s["n"] for s in spec["states"]]
     names += [a["n"] for a in spec["aliases"]] + list(spec["inputs"]) + [p["n"] for p in spec["params"]]
+    names += [e["n"] for e in spec.get("extras", [])]
     return names + ["time"]
 
 
@@ -331,6 +352,7 @@ def wire_terms(spec, terms, frac):
     aidx = {a["n"]: j for j, a in enumerate(spec["algs"])}
     uidx = {u: k for k, u in enumerate(spec["inputs"])}
     pidx = {p["n"]: l for l, p in enumerate(spec["params"])}
+    eidx = {e["n"]: i for i, e in enumerate(spec.get("extras", []))}
     al = {a["n"]: a for a in spec["aliases"]}
     out = []
     for c, fs in terms:
@@ -353,6 +375,8 @@ def wire_terms(spec, terms, frac):
                 slots.append(["a", aidx[f]])
             elif f in uidx:
                 slots.append(["u", uidx[f]])
+            elif f in eidx:
+                slots.append(["e", eidx[f]])
             else:
                 slots.append(["p", pidx[f]])
         out.append({"c": frac(c), "f": slots})
@@ -361,9 +385,9 @@ def wire_terms(spec, terms, frac):
 
 def wire_model(spec, frac):
     return {
-        "nS": len(spec["states"]), "nA": len(spec["algs"]), "nE": 0,
+        "nS": len(spec["states"]), "nA": len(spec["algs"]), "nE": len(spec.get("extras", [])),
         "nU": len(spec["inputs"]) + 1, "nP": len(spec["params"]),
         "F": [wire_terms(spec, eq["terms"], frac) for eq in spec["eqs"]],
         "Finit": [wire_terms(spec, eq["terms"], frac) for eq in spec["init_eqs"]],
-        "G": [],
+        "G": [wire_terms(spec, e["terms"], frac) for e in spec.get("extras", [])],
     }
